@@ -1,6 +1,10 @@
 import CV.Proofs.RangeDecTotal
 /-!
 # C18 — Size, emptiness and exhaustion queries of the range coder (component `range`)
+
+`Fits c e 0` / `MsgFits c n`: the 64-bit `usize` results do not overflow (necessary:
+`num_words()` panics on `from_raw_parts(.., Inverted(usize::MAX, _))`).
+**Not covered:** histories containing `RangeEncoder::clear` (stale `situation`, see C08_range).
 -/
 namespace CV.Range
 
@@ -8,10 +12,11 @@ namespace CV.Range
     held back, also an encoder started `with_backend` on a non-empty sink): `num_words` is the
     length of what `into_compressed` returns now, `num_bits = Word::BITS · num_words`, and
     `is_empty` holds exactly when that export is empty. -/
-theorem C18_range_sizes_exact {c : Cfg} (hc : RValid c) {e : Encoder} (hI : Inv c e) :
+theorem C18_range_sizes_exact {c : Cfg} (hc : RValid c) {e : Encoder} (hI : Inv c e)
+    (hf : Fits c e 0) :
     ∃ ws, intoCompressed c e = .ok ws ∧ numWords c e = .ok ws.length ∧
       numBits c e = .ok (c.W * ws.length) ∧ (isEmpty c e = true ↔ ws = []) :=
-  ⟨_, intoCompressed_eq hc hI, numWords_eq hc hI, numBits_eq hc hI, isEmpty_iff_export_nil⟩
+  ⟨_, intoCompressed_eq hc hI, numWords_eq hc hI hf, numBits_eq hc hI hf, isEmpty_iff_export_nil⟩
 
 /-- the invariant holds for an encoder started on a sink that already holds words -/
 theorem C18_range_with_backend_inv {c : Cfg} (hc : RValid c) {ws : List Nat} (hw : WordsOK c ws) :
@@ -19,19 +24,27 @@ theorem C18_range_with_backend_inv {c : Cfg} (hc : RValid c) {ws : List Nat} (hw
 
 /-- … and along every history -/
 theorem C18_range_history_inv {Sym : Type} {c : Cfg} (msg : List (MStep Sym)) (e : Encoder)
-    (hI : Inv c e) (hv : ∀ x ∈ msg, x.Valid c) :
-    ∃ e', encodeMsg c e msg = .ok e' ∧ Inv c e' := by
-  obtain ⟨e', he, hI', _⟩ := encodeMsg_ok msg e hI hv
-  exact ⟨e', he, hI'⟩
+    (hI : Inv c e) (hf : Fits c e msg.length) (hv : ∀ x ∈ msg, x.Valid c) :
+    ∃ e', encodeMsg c e msg = .ok e' ∧ Inv c e' ∧ Fits c e' 0 := by
+  obtain ⟨e', he, hI', hf', _⟩ := encodeMsg_ok msg e hI hf hv
+  exact ⟨e', he, hI', hf'⟩
+
+/-- head-room of an encoder started with `new()` / `with_backend(ws)` -/
+theorem C18_range_fits_new {c : Cfg} {n : Nat} (h : MsgFits c n) : Fits c (Encoder.empty c) n :=
+  fits_empty h
+
+theorem C18_range_fits_with_backend {c : Cfg} {n : Nat} {ws : List Nat}
+    (h : MsgFits c (ws.length + n)) : Fits c (Encoder.withBackend c ws) n :=
+  fits_withBackend h
 
 /-- a decoder that has consumed precisely the encoded symbols of an untouched stream reports
     `maybe_exhausted` -/
 theorem C18_range_exhausted_after_message {Sym : Type} {c : Cfg} (hc : RValid c)
-    (msg : List (MStep Sym)) (hv : ∀ x ∈ msg, x.Valid c) :
+    (msg : List (MStep Sym)) (hn : MsgFits c msg.length) (hv : ∀ x ∈ msg, x.Valid c) :
     ∃ e ws d0 d, encodeMsg c (Encoder.empty c) msg = .ok e ∧ intoCompressed c e = .ok ws ∧
       Decoder.fromCompressed c ws = .ok d0 ∧
       decodeMsg c d0 msg = .ok (msg.map (·.sym), d) ∧ d.maybeExhausted c = .ok true := by
-  obtain ⟨e, ws, d0, d, h1, h2, h3, h4, h5, _⟩ := roundtrip hc msg hv
+  obtain ⟨e, ws, d0, d, h1, h2, h3, h4, h5, _⟩ := roundtrip hc msg hn hv
   exact ⟨e, ws, d0, d, h1, h2, h3, h4, h5⟩
 
 /-- a decoder with whole words left reports that it is not exhausted -/
@@ -40,6 +53,7 @@ theorem C18_range_not_exhausted_while_words_remain {c : Cfg} (hc : RValid c) {d 
   not_exhausted_of_words_left hc h
 
 example : Inv exCfg exInverted := exInverted_inv
+example : Fits exCfg exInverted 0 := by decide
 example : numWords exCfg exInverted = .ok 2 ∧ isEmpty exCfg exInverted = false := by decide
 example : WordsOK exCfg [1, 2, 3] := wordsOK_of_all (by decide)
 example : numWords exCfg (Encoder.withBackend exCfg [1, 2, 3]) = .ok 3 := by decide
@@ -49,5 +63,7 @@ end CV.Range
 #print axioms CV.Range.C18_range_sizes_exact
 #print axioms CV.Range.C18_range_with_backend_inv
 #print axioms CV.Range.C18_range_history_inv
+#print axioms CV.Range.C18_range_fits_new
+#print axioms CV.Range.C18_range_fits_with_backend
 #print axioms CV.Range.C18_range_exhausted_after_message
 #print axioms CV.Range.C18_range_not_exhausted_while_words_remain
